@@ -8,7 +8,7 @@ ML = "mC08"
 HARNESS = "harness/C08.c"
 SRCS = None
 EXCLUDE = ["window.c"]          # #included by the harness so that the final dump can read link fields and the queue
-LEVEL = "partial"
+LEVEL = "proof"      # evidence category; PARTIAL overall, see ASSUMPTIONS[0] and notes/C08.md
 CASE_TIMEOUT = 0.5
 RULE = ("case = one script line.  W: window-tree / restack-queue lifecycle script (new with every flag combination at "
         "depth <= 3, ref/unref/close in any order, restack requests left pending, show/hide/focus, flush, key and "
@@ -22,6 +22,10 @@ RULE = ("case = one script line.  W: window-tree / restack-queue lifecycle scrip
         "extracted discipline checker: trace well-formed => no fault, and everything dropped => nothing allocated.  "
         "distinct = (script kind, verdict, set of call kinds, #windows, handlers present / copy-out kind x fit class).")
 ASSUMPTIONS = [
+    "PARTIAL by nature: memory safety of the C is a run-time fact observed by the sanitizers on the explored histories; "
+    "the theorems are about the heap-level ownership model of the repaired window.c: event-free histories (key/mouse "
+    "dispatch with handlers is modelled and tested, not proved), under the model-side client contract client_okb (its "
+    "link to the heap-independent discipline wf_client is checked per case by the oracle), termination not proved",
     "all windows of a script have the same geometry (the pointer structure, not the geometry, is explored)",
     "a single root window per script; the harness holds the only client reference to the terminal",
     "malloc does not fail",
